@@ -71,6 +71,23 @@ pub struct RunCtx<'a> {
     pub states: &'a mut std::collections::BTreeSet<u64>,
 }
 
+thread_local! {
+    /// Running digest of every gate (actor, kind, normalised path, len, hash, verdict, clock)
+    /// released to history commands on this thread: the determinism self-check compares it.
+    pub static TRACE_DIGEST: std::cell::Cell<u64> = const { std::cell::Cell::new(0) };
+}
+
+pub fn fold_trace(out: &CmdOut, root: &std::path::Path) {
+    let root = root.to_string_lossy().to_string();
+    let mut h = TRACE_DIGEST.with(|d| d.get());
+    for t in &out.trace {
+        let line = format!("{}|{}|{}|{}|{}|{:?}|{}", t.actor, t.kind, t.path.replace(&root, "$ROOT"), t.len, t.hash, t.verdict, t.now);
+        h = simcore::rng::splitmix(h ^ simcore::fsutil::fnv(line.as_bytes()));
+    }
+    h = simcore::rng::splitmix(h ^ simcore::fsutil::fnv(format!("{:?}", out.exit).as_bytes()));
+    TRACE_DIGEST.with(|d| d.set(h));
+}
+
 /// Runs the reference for the current project state and command (memoised).
 pub fn reference_for(
     w: &World,
@@ -129,6 +146,7 @@ pub fn exec_and_compare(
     if let Some(e) = &out.harness_error {
         return Err(format!("step {step} {args:?}: {e}"));
     }
+    fold_trace(&out, &w.prj);
     if out.panicked() {
         return Ok((
             out.clone(),
